@@ -44,7 +44,7 @@ CLAIMED = {
   "text": "where/select/exists/all/empty/count/first/last/tail/skip/take/index/distinct/isDistinct/exclude/intersect/extension against list references for collections up to the bound whose items (Integers, FHIR integers, strings, complex elements) have symbolic content; take/skip/index for every int32.",
   "design_ref": "DESIGN.md §4 C10", "note": BASE_NOTE},
  "C12": {"technique": T + " (type names as symbolic strings; registry contents dumped from the real code as data)",
-  "text": "TypeSpecifier.Is is reflexive, transitive, namespace-respecting and terminates; primitive specialisations, hierarchy soundness against the real element/resource registry, name resolution, TypeOf and is/as on System values and harness-built FHIR elements.",
+  "text": "TypeSpecifier.Is is reflexive, transitive, namespace-respecting and terminates; primitive specialisations, hierarchy soundness against the real element/resource registry, name resolution, TypeOf and is/as on System values and harness-built FHIR elements; the compiler's resolution of written type specifiers (parse-tree visitor over hand-built trees).",
   "design_ref": "DESIGN.md §4 C12", "note": BASE_NOTE},
  "C13": {"technique": T + " (strings as byte tuples through the real strconv/decimal/time parsers)",
   "text": "For each target type the table-bound toT/convertsToT pair: convertsToT iff toT non-empty, never an error on a single item, result of type T, idempotent, conversion matrix for non-String sources; Boolean/Integer string round trip.",
